@@ -292,6 +292,10 @@ pub fn corrupted(base: &J, faults: &[J]) -> Result<Vec<u8>, String> {
                         "cp1" => (h & 0x8000_0000) | 1,
                         "cp437" => (h & 0x8000_0000) | 437,
                         "longbit" => h ^ 0x8000_0000,
+                        // another KNOWN page: the bytes of the strings were written for a different one
+                        "cpascii" => (h & 0x8000_0000) | 20127,
+                        "cp932" => (h & 0x8000_0000) | 932,
+                        "cputf8" => (h & 0x8000_0000) | 65001,
                         _ => 0x7FFF_FFFF,
                     };
                     set32(&mut s.1, 0, v);
@@ -340,6 +344,9 @@ pub fn corrupted(base: &J, faults: &[J]) -> Result<Vec<u8>, String> {
                     let last_off = so + get32(b, so + 12 + 8 * count.saturating_sub(1)) as usize;
                     let val = |orig: u32| -> u32 {
                         match kind {
+                            "ascii" => 20127,
+                            "sjis" => 932,
+                            "latin1" => 1252,
                             "zero" => 0,
                             "one" => 1,
                             "huge" => 0xFFFF_FFF0,
